@@ -4,7 +4,7 @@
 # usage: tools/confirm_seeded.sh seeded/<id>     (the demo is <id>/demo.sh, run as <worktree>/_seed/demo.sh)
 set -u
 D=$(realpath "$1"); ID=$(basename "$D"); W=/tmp/confirm-$ID
-export CARGO_TARGET_DIR=/var/tmp/confirm-target CARGO_NET_OFFLINE=true
+export CARGO_TARGET_DIR=${CONFIRM_TARGET:-/var/tmp/confirm-target} CARGO_NET_OFFLINE=true
 git -C /repo worktree remove --force $W >/dev/null 2>&1; rm -rf $W
 git -C /repo worktree add --detach $W HEAD >/dev/null 2>&1 || { echo "worktree failed"; exit 2; }
 mkdir -p $W/_seed && cp -r $D/* $W/_seed/ && chmod +x $W/_seed/*.sh 2>/dev/null
